@@ -68,6 +68,10 @@ def main(chk):
       variable_axes['st'] = Out(cfg['sax'])
       if cfg['prole'] == 'axis':
         variable_axes['params'] = In(cfg['pax'])
+    if cfg.get('catchall') and cfg['prole'] == 'axis' and cfg['srole'] in ('axis', 'out'):
+      # the same assignment with a catch-all entry after the specific one (filters are first-match)
+      pa = variable_axes['params']
+      variable_axes = {'st': variable_axes['st'], True: getattr(pa, 'axis', pa)}      # (a plain int for the catch-all, even next to an Out(..) entry)
     return nn.vmap(functools.partial(Body, vm=True) if False else BodyV, variable_axes=variable_axes, split_rngs=split, in_axes=(None, cfg['xax']), out_axes=cfg['yax'],
                    axis_size=cfg['n'])
 
@@ -79,7 +83,8 @@ def main(chk):
     n = cfg['n']
     xs = np.stack([np.full((3,), i + 1, np.int32) for i in range(n)], axis=cfg['xax'])
     sig = f"{mode}:n={n}:rev={cfg['rev']}:unroll={cfg['unroll']}:params={cfg['prole']}@{cfg['pax']}:st={cfg['srole']}@{cfg['sax']}" \
-          f":in={cfg['xax']}:out={cfg['yax']}:split={int(cfg['splitp'])}{int(cfg['splitd'])}:{cfg['phase']}" + ('' if cfg.get('cci', True) else ':cci=False')
+          f":in={cfg['xax']}:out={cfg['yax']}:split={int(cfg['splitp'])}{int(cfg['splitd'])}:{cfg['phase']}" + ('' if cfg.get('cci', True) else ':cci=False') + \
+          (':catch-all' if cfg.get('catchall') else '')
     key = 'C06:' + sig
     rngs = {'params': jax.random.key(3), 'drop': jax.random.key(4)}
     try:
@@ -207,7 +212,9 @@ def main(chk):
     if not chk.thorough:
       import random
       cases = random.Random(chk.seed + (1 if mode == 'scan' else 2)).sample(cases, 200 if mode == 'scan' else 140)
-    for case in cases:
+    for ci, case in enumerate(cases):
+      if mode == 'vmap' and ci % 2 == 1:
+        case = dict(case, cfg=dict(case['cfg'], catchall=True))
       r = replay(case, mode)
       total += 1
       if total % 400 == 0:      # thousands of distinct compiled loops: drop the executables (the thorough tier otherwise exhausts memory)
@@ -219,6 +226,59 @@ def main(chk):
       if r:
         chk.violation(r[0], r[1], case)
     chk.sample({'spec': 'LiftLoop', 'mode': mode, 'case': cases[0]})
+  # ---- function-form transforms applied to `self` inside a (non-root) module that has already touched another collection:
+  #      pre-existing per-example / carried state must be sliced in and carried, as by the per-example call / the unrolled loop
+  def fbody(mdl, x, scale):
+    tot = mdl.variable('st', 'total', lambda: jnp.zeros((2,), jnp.int32))
+    tot.value = tot.value + scale * x
+    return tot.value
+
+  def lbody(mdl, c, x, scale):
+    tot = mdl.variable('st', 'total', lambda: jnp.zeros((2,), jnp.int32))
+    tot.value = tot.value + scale * x
+    return c + tot.value.sum(), tot.value
+
+  class FnMapped(nn.Module):
+    kind: str = 'vmap'
+
+    @nn.compact
+    def __call__(self, xs):
+      scale = self.param('scale', lambda k: jnp.asarray([2, 3], jnp.int32))      # touches `params` before the lifted call
+      if self.kind == 'vmap':
+        return nn.vmap(fbody, variable_axes={'st': 0}, split_rngs={}, in_axes=(0, None), out_axes=0)(self, xs, scale)
+      return nn.scan(lbody, variable_carry='st', in_axes=(0, nn.broadcast), out_axes=0)(self, jnp.zeros((), jnp.int32), xs, scale)
+
+  class FnRoot(nn.Module):
+    kind: str = 'vmap'
+
+    @nn.compact
+    def __call__(self, xs):
+      return FnMapped(kind=self.kind, name='m')(xs)
+  xs = jnp.asarray([[1, 2], [3, 4], [5, 6]], jnp.int32)
+  for kind in ('vmap', 'scan'):
+    key = f'C06:function-form:{kind}:non-root-module'
+    chk.count(key)
+    try:
+      st0 = jnp.asarray([[10, 20], [30, 40], [50, 60]], jnp.int32) if kind == 'vmap' else jnp.asarray([10, 20], jnp.int32)
+      variables = {'params': {'m': {'scale': jnp.asarray([2, 3], jnp.int32)}}, 'st': {'m': {'total': st0}}}
+      out, upd = FnRoot(kind=kind).apply(variables, xs, mutable=['st'])
+      sc = np.asarray([2, 3])
+      if kind == 'vmap':
+        want = np.asarray(st0) + sc * np.asarray(xs)
+        ok = np.array_equal(np.asarray(out), want) and np.array_equal(np.asarray(upd['st']['m']['total']), want)
+      else:
+        tot, c, ys = np.asarray(st0).copy(), 0, []
+        for t in range(3):
+          tot = tot + sc * np.asarray(xs[t])
+          c += tot.sum()
+          ys.append(tot.copy())
+        ok = int(out[0]) == c and np.array_equal(np.asarray(out[1]), np.stack(ys)) and np.array_equal(np.asarray(upd['st']['m']['total']), tot)
+      if not ok:
+        chk.violation(key, f'nn.{kind}(fn, ...)(self, ...) inside a child module that already used `params`: outputs / updated state '
+                           f'{jax.tree_util.tree_map(lambda v: np.asarray(v).tolist(), (out, upd))} differ from the per-example call / unrolled loop '
+                           'on the pre-existing state', {})
+    except Exception as e:
+      chk.violation(key, f'raised {type(e).__name__}: {str(e)[:200]}', {})
   chk.cov['configurations_replayed'] = total
   chk.finish(rule=('every (length 1..3, reverse, unroll, role and axis of params and state, in/out axis, split flags, init/apply) configuration '
                    'enumerated by TLC (sampled in the quick tier: compile-bound), body = fixed integer module program'), exhaustive=chk.thorough)
